@@ -46,6 +46,16 @@ var extras = [][2]string{
 	{"common-lisp:+/2", "(+ 1l99999999 2)"},
 	{"common-lisp:princ-to-string/1", "(princ-to-string 1l99999999)"},
 	{"common-lisp:make-array/1", "(make-array 300000000)"},
+	{"common-lisp:make-sequence/2", "(make-sequence 'list 300000000)"},
+	{"common-lisp:make-sequence/2", "(make-sequence 'vector 4611686018427387904)"},
+	{"common-lisp:make-string/3+", "(make-string 4611686018427387904 :initial-element #\\a)"},
+	{"common-lisp:make-string/3+", "(make-string 300000000 :initial-element (code-char 1635))"},
+	{"common-lisp:make-list/3+", "(make-list 300000000 :initial-element 1)"},
+	{"common-lisp:make-array/3+", "(make-array 300000000 :element-type 'octet)"},
+	// the total size of a multi-dimensional array is not limited (array-total-size-limit is most-positive-fixnum) and
+	// the product of the dimensions can overflow: one root cause, two call sites (known findings)
+	{"common-lisp:make-array/1", "(make-array '(70000 70000))"},
+	{"common-lisp:aref/3+", "(aref (make-array '(268435456 268435456 268435456)) 1 1 1)"},
 	{"common-lisp:typecase/2", "(typecase nil (t 2))"},
 	{"common-lisp:floor/2", "(floor 3/4 0)"},
 	{"common-lisp:setf/2", "(let ((h (make-hash-table))) (setf (gethash '(1 2) h) 3))"},
